@@ -280,7 +280,7 @@ type ProcRec struct {
 
 // classProgram builds a multi-line program of the given outcome class with the fault at line `at` (1..3 of 4 statements).
 var classFaults = map[string][]string{
-	"lexerr": {"@", "\"abc", "/* open", "1 $ 2;"},
+	"lexerr": {"@", "\"abc", "/* open", "1 $ 2;", "/*/ still open", "/* a * / b **"},
 	"synerr": {"PRINT ;", "{", "1 +", ")", "VAR 1 = 2;", "{ PRINT 1;"},
 	"rterr":  {"PRINT 1 / 0;", "zz;", "BREAK;", "nil();"},
 	"clean":  {""},
@@ -292,6 +292,21 @@ func classProgram(class string, at int, flavour ...int) (src string, wantOut str
 	fl := 0
 	if len(flavour) > 0 {
 		fl = flavour[0]
+	}
+	if class == "clean" {
+		// programs with nothing to run are clean too: exit 0, no output
+		switch fl % 6 {
+		case 1:
+			return "", ""
+		case 2:
+			return " \n\t\n  ", ""
+		case 3:
+			return "// nothing here\n", ""
+		case 4:
+			return "/* nothing\n here */", ""
+		case 5:
+			return strings.Join(lines, "\n"), "one\ntwo\nthree\n"
+		}
 	}
 	fs := classFaults[class]
 	fault := strings.NewReplacer("PRINT", pr, "VAR", keywordSpelling["var"], "BREAK", keywordSpelling["break"]).Replace(fs[fl%len(fs)])
@@ -418,7 +433,7 @@ func checkC19(c *Ctx) {
 		c.replaySemCLI(fout, &SemOpts{}, every, 10*time.Second)
 	}
 	c.cov("exhaustive", true)
-	c.cov("rule", "BornoProc (arguments, extension, file, outcome class, flags, exit status; REPL loop) explored completely by TLC and checked as an inductive invariant by Apalache; every terminal state instantiated with concrete command lines (0..3 arguments, 10 names without a .bn extension, missing file / directory / path through a file, programs of each outcome class with the fault at the first, a middle, the last line, under 5 file names); FamInput: 0..5 input calls (with and without prompt) x 0..4 input lines with surrounding blanks x clean / failing programs, each through the executable with and without a final newline; FamFaults sample for exit 70 and stream separation")
+	c.cov("rule", "BornoProc (arguments, extension, file, outcome class, flags, exit status; REPL loop) explored completely by TLC and checked as an inductive invariant by Apalache; every terminal state instantiated with concrete command lines (0..3 arguments, 10 names without a .bn extension, missing file / directory / path through a file, programs of each outcome class with the fault at the first, a middle, the last line and after it, under 6 file names; clean programs include the empty, the blank-only and the comment-only text, lexical faults include comment openers that look closed); FamInput: 0..5 input calls (with and without prompt) x 0..4 input lines with surrounding blanks x clean / failing programs, each through the executable with and without a final newline; FamFaults sample for exit 70 and stream separation")
 	c.Ev.Assumptions = []string{"the checks run as root, so an unreadable file is produced by a missing file, a directory and a path through a non-directory", "the usage and extension messages of exit status 64 may be written to either stream"}
 }
 
